@@ -106,7 +106,9 @@ def other_schemes(rng, g):
     def r(x, kind):
         if x not in ren:
             k = len(ren)
-            ren[x] = rng.choice(['urn:%s:%d', 'mailto:%s%d@example.org', 'ftp://files.example.org/%s/%d', 'tag:example.org,2024:%s%d', 'x:%s%d', 'a1+b.c-d:%s/%d']) % (kind, k) \
+            ren[x] = rng.choice(['urn:%s:%d', 'mailto:%s%d@example.org', 'ftp://files.example.org/%s/%d', 'tag:example.org,2024:%s%d', 'x:%s%d', 'a1+b.c-d:%s/%d',
+                                    # a scheme is case-insensitive: these are absolute IRIs too
+                                    'URN:%s:%d', 'Mailto:%s%d@example.org', 'HTTP://Example.org/%s/%d']) % (kind, k) \
                 if rng.random() < 0.5 else x
         return ren[x]
     out = []
@@ -193,6 +195,8 @@ def run(ctx):
     for i in range(n):
         g = adversarial_graph(rng) if i % 3 else gen.gen_graph(rng)
         cfg = gen.gen_cfg(rng, g, presentation=True)
+        if rng.random() < 0.35:
+            cfg['examples'] = rng.choice(['shape', 'cons', 'cons', 'all', 'all'])       # examples of multi-typed nodes, of every (shape, property)
         cases.append((g, cfg))
     ths = gen.threshold_grid
     nontriv = 0
